@@ -563,26 +563,50 @@ def check_block_loop_callers(ctx, res, config="all"):
             if starts != 2:
                 errs.append("the digit count returned by the block loop does not start both tail slices (%d of 2)" % starts)
             carry_ok = False
+            # values derived from component .0 of the block loop's result through casts, From::from and moves
+            derived = set()
+            fl0 = core.Flow(b)
             for bi, si, s in b.stmts():
                 rv = s.get("rv")
-                if rv and rv["k"] == "cast":
-                    rr = core.Flow(b).roots_of_operand(rv["op"])
+                if rv and rv["k"] in ("cast", "use") and not s["place"]["proj"]:
+                    rr = fl0.roots_of_operand(rv["op"]) if rv["op"]["k"] != "const" else ()
                     if any(r[0] == "call" and r[1] == i and r[3][:1] == ("0",) for r in rr):
-                        # the cast result must reach the carry/borrow variable used by adc/sbb
-                        cl = s["place"]["local"]
-                        for bj, tt in b.calls():
-                            if callee_name(tt) in ("adc", "sbb"):
-                                ra = core.Flow(b).roots_of_operand(tt["args"][0])
-                                al = op_local(tt["args"][0])
-                                # carry variable: defs include the cast local
-                                chain = {al}
-                                for _ in range(3):
-                                    for l in list(chain):
-                                        for d in b.defs().get(l, []):
-                                            if d[0] == "assign" and d[3]["rv"]["k"] == "use" and op_local(d[3]["rv"]["op"]) is not None:
-                                                chain.add(op_local(d[3]["rv"]["op"]))
-                                if cl in chain:
-                                    carry_ok = True
+                        derived.add(s["place"]["local"])
+            for bj, tt in b.calls():
+                if callee_name(tt) in ("from", "into") and tt["args"] and not tt["dest"]["proj"]:
+                    rr = fl0.roots_of_operand(tt["args"][0])
+                    if any(r[0] == "call" and r[1] == i and r[3][:1] == ("0",) for r in rr):
+                        derived.add(tt["dest"]["local"])
+
+            def chain_of(l0):
+                chain = {l0}
+                for _ in range(4):
+                    for l in list(chain):
+                        for d in b.defs().get(l, []):
+                            if d[0] == "assign" and d[3]["rv"]["k"] == "use" and op_local(d[3]["rv"]["op"]) is not None:
+                                chain.add(op_local(d[3]["rv"]["op"]))
+                return chain
+
+            for bj, tt in b.calls():
+                nm_ = callee_name(tt)
+                if nm_ in ("adc", "sbb") and tt["args"]:
+                    al = op_local(tt["args"][0])
+                    if al is not None and chain_of(al) & derived:
+                        carry_ok = True
+                if nm_ in ("fold", "try_fold") and len(tt["args"]) == 3:
+                    il = op_local(tt["args"][1])
+                    if il is not None and chain_of(il) & derived:
+                        # the accumulator function must feed its accumulator to adc/sbb as the carry
+                        cl = op_local(tt["args"][2])
+                        for d in b.defs().get(cl, []) if cl is not None else []:
+                            if d[0] == "assign" and d[3]["rv"]["k"] == "aggregate" and d[3]["rv"].get("akind") == "closure":
+                                cb_ = facts.body(d[3]["rv"]["closure"])
+                                if cb_ is not None:
+                                    for bk, t3 in cb_.calls():
+                                        if callee_name(t3) in ("adc", "sbb") and t3["args"]:
+                                            r3_ = core.Flow(cb_).roots_of_operand(t3["args"][0])
+                                            if any(r[0] == "param" and r[1] == 2 for r in r3_):
+                                                carry_ok = True
             if not carry_ok:
                 errs.append("the carry/borrow returned by the block loop is not the initial carry of the scalar tail")
             key = "%s->%s" % (caller, target)
@@ -889,7 +913,54 @@ def check_utf8(ctx, res, config="all"):
                         if arm in adds or len(sc) != 1:
                             break
                         x = sc[0]
-        if adds.get("lt") != 48 or adds.get("ge") != 87:
+        mapping_undecided = False
+        if not adds:
+            # form B: the offset is chosen on the two arms (`let offset = if d < 10 { b'0' } else { b'a' - 10 }`) and added once
+            for t in tl:
+                c = t.cond
+                if c is not None and c.kind == "cmp" and c.op == "Lt" and consts_of(c.b) == {10}:
+                    cand = {}
+                    for arm, tgt in (("lt", t.t), ("ge", t.f)):
+                        x = tgt
+                        for _ in range(8):
+                            for st in b.blocks[x]["stmts"]:
+                                if st["k"] == "assign" and not st["place"]["proj"] and b.local_ty(st["place"]["local"]) == "u8":
+                                    cst = None
+                                    rv = st["rv"]
+                                    if rv["k"] == "use":
+                                        cst = _const_value(b, rv["op"])
+                                    elif rv["k"] == "binop" and rv["op"].startswith("Sub"):
+                                        x1, x2 = _const_value(b, rv["a"]), _const_value(b, rv["b"])
+                                        if x1 is not None and x2 is not None:
+                                            cst = x1 - x2
+                                    if cst is not None:
+                                        cand.setdefault(arm, (st["place"]["local"], cst))
+                            sc = b.succ(x)
+                            if len(sc) != 1:
+                                break
+                            x = sc[0]
+                    if len(cand) == 2:
+                        # the chosen value (through copies) is what is added to the digit
+                        locs = {cand["lt"][0], cand["ge"][0]}
+                        for bi, si, st in b.stmts():
+                            rv = st.get("rv")
+                            if rv and rv["k"] == "binop" and rv["op"] in ("Add", "AddWithOverflow", "AddUnchecked") and core.op_place(rv["a"]) and any(e["k"] == "deref" for e in core.op_place(rv["a"])["proj"]):
+                                l_ = op_local(rv["b"])
+                                for _ in range(4):
+                                    ds = b.defs().get(l_, []) if l_ is not None else []
+                                    if l_ in locs:
+                                        break
+                                    srcs = {op_local(d[3]["rv"]["op"]) for d in ds if d[0] == "assign" and d[3]["rv"]["k"] == "use"}
+                                    if len(srcs) >= 1 and srcs <= locs | {None} and srcs & locs:
+                                        l_ = next(iter(srcs & locs))
+                                        break
+                                    l_ = next(iter(srcs)) if len(srcs) == 1 else None
+                                if l_ in locs:
+                                    adds = {"lt": cand["lt"][1], "ge": cand["ge"][1]}
+        if not adds:
+            mapping_undecided = True
+            res.note("R4-utf8-producer: the digit -> ASCII mapping of to_str_radix_reversed is not written as a two-way choice on `d < 10` that this rule can read - not decided")
+        elif adds.get("lt") != 48 or adds.get("ge") != 87:
             errs.append("digit->ASCII mapping is not `d < 10 ? d + '0' : d + ('a' - 10)` (found %s)" % adds)
         # (3) the zero case returns the literal b"0"
         # (4) the loop covers every element: iter_mut over the whole result of to_radix_le
@@ -939,6 +1010,11 @@ def check_raw_slice(ctx, res, config="all"):
                 if rv["k"] == "use" and op_local(rv["op"]) is not None:
                     l = op_local(rv["op"])
                     continue
+            if len(ds) == 1 and ds[0][0] == "call" and callee_name(ds[0][2]) == "cast" and ds[0][2]["args"]:
+                # `ptr.cast::<u32>()` is the same reinterpretation as `ptr as *mut u32`
+                ct = ds[0][2]
+                fty = b.local_ty(op_local(ct["args"][0])) if op_local(ct["args"][0]) is not None else ""
+                cast = {"ck": "PtrToPtr", "from": fty, "to": b.local_ty(ct["dest"]["local"]), "op": ct["args"][0]}
             break
         if cast is None or cast["ck"] != "PtrToPtr" or cast["from"] != "*mut u64" or cast["to"] != "*mut u32":
             errs.append("the pointer is not a `*mut u64 as *mut u32` reinterpretation (%s)" % (cast and (cast["from"], cast["to"])))
@@ -1100,7 +1176,7 @@ def eval_local(b, l, env, depth):
     if d[0] == "call":
         t = d[2]
         nm = callee_name(t)
-        nargs = 1 if nm in ("to_usize", "to_u64", "to_u32", "unwrap", "expect", "from", "into") else len(t["args"])
+        nargs = 1 if nm in ("to_usize", "to_u64", "to_u32", "unwrap", "expect", "from", "into", "try_from", "try_into", "ok") else len(t["args"])
         args = [eval_int(b, a, env, depth) for a in t["args"][:nargs]]
         if nm == "div_rem":
             return (args[0] // args[1], args[0] % args[1])
@@ -1108,7 +1184,7 @@ def eval_local(b, l, env, depth):
             return -(-args[0] // args[1])
         if nm == "div_floor":
             return args[0] // args[1]
-        if nm in ("to_usize", "to_u64", "to_u32", "unwrap", "expect", "from", "into", "min", "max"):
+        if nm in ("to_usize", "to_u64", "to_u32", "unwrap", "expect", "from", "into", "try_from", "try_into", "ok", "min", "max"):
             if nm == "min":
                 return min(args)
             if nm == "max":
